@@ -149,6 +149,14 @@ func (n *LocalNode) RequestToJoin(joiner chord.VNode) (chord.VNode, []chord.VNod
 		// we cannot validate the joiner's position: let the joiner retry
 		return nil, nil, chord.ErrJoinInvalidState
 	}
+	if prevPredecessor.ID() != n.ID() {
+		// a predecessor that has just left (or died) and that we have not dropped yet handed us its keys:
+		// they belong to the joiner as well, but only the range after the stale pointer would be transferred.
+		// Let the joiner retry once checkPredecessor/Notify have repaired the pointer
+		if err := prevPredecessor.Ping(); err != nil {
+			return nil, nil, chord.ErrJoinInvalidState
+		}
+	}
 
 	// see issue https://github.com/zllovesuki/specter/issues/23
 	if !chord.Between(prevPredecessor.ID(), joiner.ID(), n.ID(), false) {
